@@ -1,6 +1,7 @@
 package c06
 
 import (
+	"fmt"
 	"runtime"
 	"testing"
 	"time"
@@ -13,6 +14,11 @@ import (
 )
 
 // Deterministic witnesses of the known findings: fixed scripts over chains of empty blocks.
+
+// witnessGuard bounds the wait for the next scripted request; hitting it only means "not reproduced".
+const witnessGuard = 20 * time.Second
+
+type witnessStuck string
 
 func emptyChain(n int) (*gen.Universe, *gen.Chain) {
 	var u *gen.Universe
@@ -51,8 +57,8 @@ func (r *rig) await(kind reqKind, num uint64, poll bool) int {
 			return id
 		}
 		time.Sleep(100 * time.Microsecond)
-		if time.Since(startT) > wallGuard {
-			stats.HarnessError("witness: request %c(%d) never arrived\n%s", kind, num, r.history())
+		if time.Since(startT) > witnessGuard {
+			panic(witnessStuck(fmt.Sprintf("request %c(%d) never arrived", kind, num)))
 		}
 	}
 }
@@ -67,8 +73,8 @@ func (r *rig) awaitLocalLen(n int) {
 			return
 		}
 		time.Sleep(100 * time.Microsecond)
-		if time.Since(startT) > wallGuard {
-			stats.HarnessError("witness: local chain never reached length %d\n%s", n, r.history())
+		if time.Since(startT) > witnessGuard {
+			panic(witnessStuck(fmt.Sprintf("local chain never reached length %d", n)))
 		}
 	}
 }
@@ -101,7 +107,20 @@ func witness(t *testing.T, key string, n, have int, script func(r *rig) bool) {
 	r.e.tolerateCanon = true
 	r.e.mu.Unlock()
 	defer r.stop()
-	got := script(r)
+	got := func() (got bool) {
+		defer func() {
+			// the node did not follow the scripted path (e.g. the defect is repaired): not reproduced, never a verdict
+			if x := recover(); x != nil {
+				if w, ok := x.(witnessStuck); ok {
+					t.Logf("witness of %s left its script: %s", key, string(w))
+					got = false
+					return
+				}
+				panic(x)
+			}
+		}()
+		return script(r)
+	}()
 	r.stop()
 	r.e.mu.Lock()
 	vk, vm := r.e.violKey, r.e.violMsg
